@@ -1,0 +1,14 @@
+//go:build verif && linux && amd64
+
+package transforms32
+
+import cpu "github.com/klauspost/cpuid/v2"
+
+var verifHaveASM = cpu.CPU.Supports(cpu.AVX, cpu.AVX2, cpu.SSE, cpu.SSE2, cpu.SSE4)
+
+func verifUseASM() {
+	FlagUseASM = true
+	ForwardDCT256 = asmForwardDCT256
+	ForwardDCT64 = asmForwardDCT64
+	YCbCrToGray = AsmYCbCrToGray
+}
